@@ -1,4 +1,4 @@
-import EmmyVerif.Model.ScopeRename
+import EmmyVerif.Model.ScopeRange
 import EmmyVerif.Drv.Util
 /-! Driver ops of the `Scope` family.
 
@@ -153,6 +153,16 @@ def handle (op : String) (args : List String) : Option String :=
       | some d => encode (alphaProg d new prog) == encode q
       | none => true
     pure ("ok " ++ encode q ++ (if same then " same" else " DIFF"))
+  -- every `find_local_decl` call of the walk: the open scopes at that moment are the path `find_scope`
+  -- takes through the ranged scope tree of the chunk
+  | "findscope", [p] => do
+    let prog ← parse p
+    let tr := (implBlock { pos := startPos, frames := [{ kind := .normal, start := 0, children := [] }], out := [] } prog).trace
+    let tree := chunkTree prog
+    let bad := tr.filter fun e => e.2.reverse != pathTree tree e.1
+    pure (match bad with
+      | [] => s!"ok {tr.length} same"
+      | e :: _ => s!"ok {tr.length} DIFF {e.1}")
   | _, _ => none
 
 end Drv.Scope
